@@ -46,9 +46,14 @@ def gen(ctx):
     cases = []
     for _ in range(ctx.n(220, 3000)):
         m, n = rng.randint(2, 9), rng.randint(1, 6)
-        alpha = rng.choice([[0, 1], [0, 1, 2], [1, 2, 3, 4], None, "near", "bigint"])
+        alpha = rng.choice([[0, 1], [0, 1, 2], [1, 2, 3, 4], None, "near", "bigint", "uint"])
         bigint = alpha == "bigint"
-        if bigint:
+        udtype = None
+        if alpha == "uint":
+            # matrix stored with an unsigned integer dtype: differences must not be taken in that dtype
+            udtype = rng.choice(["uint8", "uint16", "uint32", "uint64"])
+            mat = [[rng.randint(0, 5) for _ in range(n)] for _ in range(m)]
+        elif bigint:
             # integer-typed matrix with values that differ only beyond the 53-bit mantissa of a double
             mat = [[2 ** 53 + rng.randint(0, 3) for _ in range(n)] for _ in range(m)]
         elif alpha == "near":
@@ -59,7 +64,7 @@ def gen(ctx):
             mat = [[float(rng.choice(alpha)) for _ in range(n)] for _ in range(m)]
         else:
             mat = G.matrix(rng, m, n, "dyadic", positive=False, ties=0.5, dups=0.2)
-        dm = {"matrix": mat, "objectives": G.objectives(rng, n), "weights": [1.0] * n, "int_matrix": bigint,
+        dm = {"matrix": mat, "objectives": G.objectives(rng, n), "weights": [1.0] * n, "int_matrix": bigint, "dtype": udtype,
               "alternatives": G.labels(rng, G.LABEL_POOL_ALT, m), "criteria": G.labels(rng, G.LABEL_POOL_CRIT, n)}
         cases.append({"dm": dm, "calls": _calls(rng, m, rng.randint(3, 9))})
     if ctx.thorough:
